@@ -35,7 +35,7 @@ let init () =
     save_result (id3f_save (bytes_of_hex f) (bytes_of_hex fr) o));
   register "id3f_save_v2" (fun [f; fr; v2; mode; known] ->
     let o = opts_of v2 "0" "x" mode known in
-    save_result (id3f_save_v2 (bytes_of_hex f) (bytes_of_hex fr) o));
+    save_result (match id3f_save_v2 (bytes_of_hex f) (bytes_of_hex fr) o with Ok (g, _) -> Ok g | Raise e -> Raise e));
   register "id3f_delete" (fun [f] -> bytes_result (id3f_delete (bytes_of_hex f)));
   register "id3f_load" (fun [f] ->
     match id3f_load (bytes_of_hex f) with
@@ -53,7 +53,7 @@ let init () =
        | None -> Printf.sprintf "ok none 0 0 0 %x %s" (Stdlib.List.length s.i_mid) v1
        | Some t -> Printf.sprintf "ok %s %s %x %s %x %s" (string_of_z t.t_ver) (string_of_z t.t_size)
                      (Stdlib.List.length t.t_frames) (string_of_z t.t_pad) (Stdlib.List.length s.i_mid) v1));
-  register "id3f_find_v1" (fun [f] -> "ok " ^ opt_z (find_id3v1 (bytes_of_hex f)));
+  register "id3f_find_v1" (fun [start; f] -> "ok " ^ opt_z (find_id3v1 (z_of_string start) (bytes_of_hex f)));
   register "id3f_header" (fun [known; f] ->
     match mut_header (chunks4 (bytes_of_hex known)) (bytes_of_hex f) with
     | Ok h -> "ok " ^ opt_z h
